@@ -42,6 +42,8 @@ FIXES = [
  ('C18','--parse-ansi does not panic','parse_ansi.rs: println! panicked (exit 101) when stdout was closed'),
  ('C18','--generate-completion does not panic','generate_completion.rs: clap_complete panicked (`Failed to write to generated file`, exit 101) when stdout was closed'),
  ('C12',"'hidden' attribute is included when a style is printed","style.rs: --show-config omitted the `hidden` attribute, so the reported style did not reproduce the rendering"),
+ ('C01',"is not a file header when diff -u output starts with","delta.rs: in plain diff output that starts with a `diff -u a b` / `Only in` line, a removed line `--- x` followed by `+++ y` inside a hunk was rendered as a new file header and the rest of the hunk was lost (also C14)"),
+ ('C04','an over-long line with invalid UTF-8 is truncated like any other line','delta.rs: a line with invalid UTF-8 longer than max-line-length was cut without the truncation symbol (and without the exemptions for hunk headers / rg --json records)'),
 ]
 out = []
 for prop, pat, what in FIXES:
